@@ -1293,6 +1293,22 @@ def _rule_T5_progress(ctx, rid, run, cfg, W, zero, svar):
         txt = unparse(cj)
         if (txt, True) in facts:
             return True, None
+        # min(A) >= B is all(A >= B) (and max(A) <= B is all(A <= B))
+        if isinstance(cj, ast.Compare) and len(cj.ops) == 1 and isinstance(cj.left, ast.Call):
+            red = dotted(cj.left.func) or ''
+            arr = None
+            if red in ('np.amin', 'np.min', 'min', 'np.amax', 'np.max', 'max') and cj.left.args:
+                arr = cj.left.args[0]
+            elif isinstance(cj.left.func, ast.Attribute) and cj.left.func.attr in ('min', 'max') \
+                    and not cj.left.args:
+                arr, red = cj.left.func.value, cj.left.func.attr
+            is_min = red.endswith('min')
+            if arr is not None and ((is_min and isinstance(cj.ops[0], (ast.GtE, ast.Gt))) or
+                                    (not is_min and isinstance(cj.ops[0], (ast.LtE, ast.Lt)))):
+                alt = ast.parse('np.all(%s %s %s)' % (
+                    unparse(arr), {ast.GtE: '>=', ast.Gt: '>', ast.LtE: '<=', ast.Lt: '<'}[
+                        type(cj.ops[0])], unparse(cj.comparators[0])), mode='eval').body
+                return entailed(alt, facts)
         # np.all(A >= B) from not np.any(A < B): element-wise complement, fine for counters
         if isinstance(cj, ast.Call) and dotted(cj.func) in ('np.all', 'all') and cj.args and \
                 isinstance(cj.args[0], ast.Compare) and len(cj.args[0].ops) == 1:
